@@ -46,7 +46,7 @@ def _tf_transform(interp, args, kwargs, node):
     if pos.kind != "tuple":
         raise EngineError(f"transform of {pos}")
     x, y, z = [to_real_z(c) for c in pos.items]
-    same = src == dst
+    same = z3.BoolVal(True) if tf.data.get("identity") else src == dst     # a registry holding only the identity matrix changes nothing
     out = VTuple([VReal(z3.If(same, c, TF[i](tf.z, src, dst, x, y, z))) for i, c in enumerate((x, y, z))])
     if rot is None:
         return out
@@ -55,7 +55,12 @@ def _tf_transform(interp, args, kwargs, node):
     return VTuple((out, VOpaque("quaternion", z3.If(same, rot.z, TFQ(tf.z, src, dst, rot.z)))))
 
 
+def _eye(interp, args, kwargs, node):
+    return VOpaque("ndarray", data={"eye": args[0].const})
+
+
 HANDLERS = {
+    "numpy.eye": (_eye, "np.eye(n) is the identity matrix"),
     "numpy.mean": (_mean, "np.mean(list) is a function of the list's items and length only"),
     "transformdict.transform": (_tf_transform, "TransformDict.transform((X, X), p) == p; otherwise a function of (registry, src, dst, p)"),
 }
